@@ -37,4 +37,10 @@ theorem handleChanMessage_translated (s : ExecState) (p : CtlParams) :
           by_cases hm : text ∈ s.chanHandlers <;> mgsimp [hm, hg, hh, frameExt, encCb, rawOf, hndOf, shapeName, Val.hashable]
         · by_cases hm : text ∈ s.chanHandlers <;> simp [Jrpc.handleChanMessage, CtlParams.decoded, JVal.chanIdOf, hm] <;> omega
 
+/-- C10 over the regenerated code: no params member of an `xrpc.ch.val` frame makes `handleChanMessage` panic. -/
+theorem C10_handleChanMessage_never_panics (s : ExecState) (p : CtlParams) :
+    (run (frameExt p) prog_wsConn_handleChanMessage (chanEnv s)).isPanic = false := by
+  obtain ⟨_, h, _⟩ := handleChanMessage_translated s p
+  exact not_panic_of_fx h
+
 end Jrpc.Trans
